@@ -83,7 +83,7 @@ def run(chk, F, tier):
     chk.rule("A1.counts", floor=2, doc="std I/O calls in the adapter: partial-transfer calls must use their count; write_all/read_exact are whole-transfer by contract")
     chk.rule("A2.errors", floor=5, doc="every io::Result in the adapter is propagated")
     chk.rule("A3.byteorder", floor=3, doc="write_word/read_word use the same byte order and whole words; the word written is the argument")
-    chk.rule("A4.positions", floor=2, doc="word_pos = div_ceil(stream_position, BYTES); set_word_pos seeks to word*BYTES with the same constant")
+    chk.rule("A4.positions", floor=2, doc="abstract interpretation for W in {u8..u128} and every stream position (residue classes): word_pos() = ceil(stream_position / BYTES); set_word_pos(w) seeks to SeekFrom::Start(w * BYTES)")
     for need in ("read_word", "write_word", "flush", "word_pos", "set_word_pos"):
         if need not in M:
             chk.bad("A2.errors", "anchor:" + need, "WordAdapter::%s not found" % need)
@@ -139,31 +139,46 @@ def run(chk, F, tier):
         if not (isinstance(src, tuple) and src[0] == "after"):
             okr, why = False, "deserialises %s, which read_exact did not fill" % mir.fmt(src)
     chk.expect("A3.byteorder", "read-whole-word", okr, "WordAdapter::read_word: " + why)
-    # A4
-    wps = [p for p in mir.walk(M["word_pos"]) if p.end[0] == "return" and p.ret[0] == "agg" and p.ret[3] == "Ok"]
-    sps = [p for p in mir.walk(M["set_word_pos"]) if p.end[0] == "return"]
-    c1 = c2 = None
-    okp = len(wps) == 1
-    if okp:
-        ex = mir.expand(wps[0].ret[4][0], wps[0])
-        okp = ex[0] == "app" and ex[1].endswith("div_ceil") and ex[2][0][0] == "okval" and ex[2][0][1][0] == "app" and ex[2][0][1][1] == "std::io::Seek::stream_position"
-        c1 = cc.strip_casts(ex[2][1]) if okp else None
-    chk.expect("A4.positions", "word_pos", okp and c1 is not None and c1[0] == "uneval" and c1[1].endswith("::BYTES"),
-               "word_pos is not stream_position().div_ceil(W::BYTES): %s" % (mir.fmt(wps[0].ret) if wps else None))
-    oks = False
-    for p in sps:
-        sk = [e for e in p.calls() if e[1] == "std::io::Seek::seek"]
-        if len(sk) == 1:
-            a = sk[0][2][1]
-            if a[0] == "agg" and a[3] == "Start" and a[4][0][0] == "binop" and a[4][0][1] == "Mul":
-                x, y = cc.strip_casts(a[4][0][2]), cc.strip_casts(a[4][0][3])
-                if is_arg(x, 2):
-                    c2 = y
-                elif is_arg(y, 2):
-                    c2 = x
-                oks = c2 is not None
-    chk.expect("A4.positions", "set_word_pos", oks and c2 == c1, "set_word_pos does not seek to word_index * the same BYTES constant word_pos divides by (%s vs %s)"
-               % (mir.fmt(c2) if c2 else None, mir.fmt(c1) if c1 else None), sample={"const": mir.fmt(c1) if c1 else None})
+    # A4: decided by abstract interpretation of the two bodies for every word size (not by the shape of the arithmetic):
+    # word_pos() = ceil(stream_position / BYTES) and set_word_pos(w) seeks to w * BYTES, for every position / index
+    import ivl
+    from ivl import AI, Agg, Opaque, mk_variant
+
+    def run_body(body, wty, y0, y1, a, b0, seen):
+        it = ivl.Interp(F, y0, y1)
+
+        def h_pos(it_, name, args, fargs, fr, t):
+            return mk_variant("std::result::Result", "Ok", [it_.input("u64", a, b0)])
+
+        def h_seek(it_, name, args, fargs, fr, t):
+            seen.append(args[1])
+            return mk_variant("std::result::Result", "Ok", [AI("u64", 0, 0)])
+        it.handlers = {"std::io::Seek::stream_position": h_pos, "std::io::Seek::seek": h_seek}
+        args = [Opaque("adapter")] + ([it.input("u64", a, b0)] if body is M["set_word_pos"] else [])
+        return it.call_body(body, args, {"W": wty, "B": "<backend>"}, 0)
+
+    okp, okv, whyp, whys = True, True, None, None
+    for wty in ("u8", "u16", "u32", "u64", "u128"):
+        nb = ivl.TY[wty][0] // 8
+        try:
+            for r in range(nb):
+                ymax = ((1 << 64) - 1 - r) // nb
+                res = run_body(M["word_pos"], wty, 0, ymax, nb, r, [])
+                v = res.fields[0] if isinstance(res, Agg) and res.variant == "Ok" else None
+                want = (1, 1 if r else 0)
+                if not (isinstance(v, AI) and v.aff is not None and v.dir is not None and tuple(v.aff) == want):
+                    okp, whyp = False, "for %s words and stream positions %d*y + %d word_pos() is %r, not y + %d" % (wty, nb, r, v, want[1])
+            seen = []
+            ymax = ((1 << 64) - 1) // nb
+            res = run_body(M["set_word_pos"], wty, 0, ymax, 1, 0, seen)
+            tgt = seen[0].fields[0] if len(seen) == 1 and isinstance(seen[0], Agg) and seen[0].variant == "Start" and seen[0].fields else None
+            if not (isinstance(tgt, AI) and tgt.aff is not None and tgt.dir is not None and tuple(tgt.aff) == (nb, 0)):
+                okv, whys = False, "for %s words set_word_pos(w) seeks to %r, not to SeekFrom::Start(%d*w)" % (wty, seen, nb)
+        except (ivl.Unsupported, ivl.Undecided, ivl.Panic) as ex:
+            okp = okv = False
+            whyp = whys = "%s words: %s: %s" % (wty, type(ex).__name__, ex)
+    chk.expect("A4.positions", "word_pos", okp, "WordAdapter::word_pos is not ceil(stream_position / W::BYTES): %s" % whyp, sample={"words": "u8..u128", "classes": "all residues"})
+    chk.expect("A4.positions", "set_word_pos", okv, "WordAdapter::set_word_pos: %s" % whys)
 
 
 def run_all(chk, fsets, tier):
